@@ -39,6 +39,25 @@ pub open spec fn slots_ok(ms: Seq<Option<WordMatch>>, t: &TextRef) -> bool {
 pub open spec fn cand_ok(c: Option<(WordMatch, WordMatch)>, rtext: &TextRef, qtext: &TextRef) -> bool {
     c matches Some(p) ==> slot_ok(p.0, rtext, p.0.offset as int) && slot_ok(p.1, qtext, p.1.offset as int)
 }
+// ---- TM-some (C03 C04 C13): when the first query word must match some record word, the record gets a match
+pub open spec fn must_match(r: &WordView, q: &WordView) -> bool { prefix_case(r, q) || equal_case(r, q) || (edit1_case(r, q) && jac_passes(r, q)) }
+// record word j and query word 0 are a pair that word_match cannot refuse, whatever views are made of them
+pub open spec fn must_pair(rtext: &TextRef, qtext: &TextRef, j: int) -> bool {
+    0 <= j < rtext.words@.len() && qtext.words@.len() >= 1 && forall|rv: WordView, qv: WordView| view_of(&rv, rtext, j) && view_of(&qv, qtext, 0) ==> #[trigger] must_match(&rv, &qv)
+}
+pub open spec fn some_slot(s: Seq<Option<WordMatch>>) -> bool { exists|k: int| 0 <= k < s.len() && #[trigger] s[k] is Some }
+pub open spec fn mono_slots(a: Seq<Option<WordMatch>>, b: Seq<Option<WordMatch>>) -> bool { a.len() == b.len() && forall|k: int| 0 <= k < a.len() && #[trigger] a[k] is Some ==> b[k] is Some }
+// the text-level cases of common/tm_contract.rs are instances
+proof fn lemma_pair_must(rtext: &TextRef, qtext: &TextRef, j: int)
+    requires text_wf(rtext), text_wf(qtext), pair_prefix(rtext, qtext, j) || pair_equal(rtext, qtext, j),
+    ensures must_pair(rtext, qtext, j),
+{
+    assert forall|rv: WordView, qv: WordView| view_of(&rv, rtext, j) && view_of(&qv, qtext, 0) implies #[trigger] must_match(&rv, &qv) by {
+        assert(rv.vchars() == tchars(rtext, j)); assert(qv.vchars() == tchars(qtext, 0));
+        assert(qtext.words@[0].slice.0 < qtext.words@[0].slice.1);
+        if pair_prefix(rtext, qtext, j) { assert(prefix_case(&rv, &qv)); } else { assert(equal_case(&rv, &qv)); }
+    }
+}
 proof fn lemma_wf_for_slot(m: WordMatch, v: &WordView, t: &TextRef, k: int)
     requires m.wf_for(v), view_of(v, t, k), match_ok2(m)
     ensures slot_ok(m, t, k)
@@ -68,7 +87,17 @@ pub fn text_match(rtext: &TextRef, qtext: &TextRef, tls: &mut Tls, tlsm: &mut Tl
         tm_post(rtext, qtext, ret), // [C09 C06 C01 C08 C02]
         final(tlsm).RMATCHES@.len() == 0 && final(tlsm).QMATCHES@.len() == 0, // [C06 C10]
         qtext.words@.len() == 0 ==> ret.0@.len() == 0 && ret.1@.len() == 0, // [C09 C12]
+        // TM-some (C03 C04 C13): a record word that the first query word must match gives the record at least one match
+        (exists|j: int| #[trigger] must_pair(rtext, qtext, j)) ==> ret.0@.len() >= 1, // [C03 C04 C13]
+        tm_some(rtext, qtext, ret), // [C03 C13]
 {
+    proof {
+        if exists|j: int| #[trigger] pair_prefix(rtext, qtext, j) || pair_equal(rtext, qtext, j) {
+            let j = choose|j: int| #[trigger] pair_prefix(rtext, qtext, j) || pair_equal(rtext, qtext, j);
+            lemma_pair_must(rtext, qtext, j);
+        }
+    }
+    let ghost need: bool = exists|j: int| #[trigger] must_pair(rtext, qtext, j);
     {
         let rcell = &mut tlsm.RMATCHES;
         {
@@ -87,6 +116,8 @@ pub fn text_match(rtext: &TextRef, qtext: &TextRef, tls: &mut Tls, tlsm: &mut Tl
                     invariant text_wf(rtext), text_wf(qtext), text_small(rtext), text_small(qtext), tls.DAMLEV.wf(),
                         slots_ok(rmatches@, rtext), slots_ok(qmatches@, qtext), __end0 == qtext.words@.len(), __i0 <= __end0,
                         qtext.words@.len() == 0 ==> (forall|k: int| 0 <= k < rmatches@.len() ==> rmatches@[k] is None),
+                        __i0 == 0 ==> (forall|k: int| 0 <= k < qmatches@.len() ==> qmatches@[k] is None),
+                        __i0 >= 1 && need ==> some_slot(rmatches@), need == (exists|j: int| #[trigger] must_pair(rtext, qtext, j)),
                     decreases __end0 - __i0,
                     {
                         let qword = &qtext.words[__i0];
@@ -96,6 +127,7 @@ pub fn text_match(rtext: &TextRef, qtext: &TextRef, tls: &mut Tls, tlsm: &mut Tl
                         }
                         let qword = qword.to_view(qtext);
                         let ghost qk = __i0 as int - 1;
+                        let ghost rm0 = rmatches@;
                         proof { assert(view_of(&qword, qtext, qk)); }
                         let mut candidate: Option<(WordMatch, WordMatch)> = None;
                         let __end1 = rtext.words.len();
@@ -104,19 +136,37 @@ pub fn text_match(rtext: &TextRef, qtext: &TextRef, tls: &mut Tls, tlsm: &mut Tl
                             invariant text_wf(rtext), text_wf(qtext), text_small(rtext), text_small(qtext), tls.DAMLEV.wf(),
                                 slots_ok(rmatches@, rtext), slots_ok(qmatches@, qtext), __end0 == qtext.words@.len(), __i0 <= __end0, 1 <= __i0,
                                 __end1 == rtext.words@.len(), __i1 <= __end1, qk == __i0 - 1, view_of(&qword, qtext, qk), cand_ok(candidate, rtext, qtext),
+                                mono_slots(rm0, rmatches@),
+                                // TM-some: for the first query word, every record word seen so far that must match has left a candidate or a filled slot
+                                qk == 0 ==> candidate is Some || some_slot(rmatches@) || (forall|j: int| 0 <= j < __i1 ==> !#[trigger] must_pair(rtext, qtext, j)),
+                            ensures qk == 0 ==> candidate is Some || some_slot(rmatches@) || (forall|j: int| 0 <= j < __end1 ==> !#[trigger] must_pair(rtext, qtext, j)),
                             decreases __end1 - __i1,
                         {
                             let rword = &rtext.words[__i1];
                             __i1 += 1;
                             if rmatches[rword.offset].is_some() {
+                                proof { assert(rmatches@[rword.offset as int] is Some); }
                                 continue;
                             }
                             let rword = rword.to_view(rtext);
                             proof { assert(view_of(&rword, rtext, __i1 as int - 1)); }
+                            let ghost cand0 = candidate; let ghost rm1 = rmatches@;
+                            proof { if qk == 0 && must_pair(rtext, qtext, __i1 as int - 1) { assert(must_match(&rword, &qword)); } }
                             let mut stop = false;
                             let __r2 = text_match__c1(rtext, qtext, &rword, &qword, rmatches, qmatches, &mut candidate, &mut stop, tls);
                             let __r3 = if __r2.is_none() { text_match__c2(rtext, qtext, &rword, &qword, rmatches, qmatches, &mut candidate, &mut stop, tls) } else { __r2 };
                             let __r4 = if __r3.is_none() { text_match__c3(rtext, qtext, &rword, &qword, rmatches, qmatches, &mut candidate, &mut stop, tls) } else { __r3 };
+                            proof {
+                                if qk == 0 {
+                                    if __r2 is Some || __r3 is Some { assert(some_slot(rmatches@)); }
+                                    else if must_pair(rtext, qtext, __i1 as int - 1) { assert(candidate is Some); }
+                                    if stop { assert(candidate is Some || some_slot(rmatches@)); }
+                                    if !(candidate is Some || some_slot(rmatches@)) {
+                                        assert(cand0 is None);
+                                        assert forall|k: int| 0 <= k < rm1.len() implies rm1[k] is None by { if rm1[k] is Some { assert(rmatches@[k] is Some); } }
+                                    }
+                                }
+                            }
                             if stop {
                                 break;
                             }
@@ -125,7 +175,19 @@ pub fn text_match(rtext: &TextRef, qtext: &TextRef, tls: &mut Tls, tlsm: &mut Tl
                             let roffset = rmatch.offset;
                             let qoffset = qmatch.offset;
                             rmatches[roffset] = Some(rmatch);
+                            proof { assert(rmatches@[roffset as int] is Some); }
                             qmatches[qoffset] = Some(qmatch);
+                        }
+                        proof {
+                            if need {
+                                if qk == 0 {
+                                    let j = choose|j: int| #[trigger] must_pair(rtext, qtext, j);
+                                    assert(some_slot(rmatches@));
+                                } else {
+                                    let k = choose|k: int| 0 <= k < rm0.len() && #[trigger] rm0[k] is Some;
+                                    assert(rmatches@[k] is Some);
+                                }
+                            }
                         }
                     }
                     let mut __out5 = Vec::new();
@@ -134,6 +196,7 @@ pub fn text_match(rtext: &TextRef, qtext: &TextRef, tls: &mut Tls, tlsm: &mut Tl
                         invariant __end5 == rmatches@.len(), slots_ok(rmatches@, rtext), text_wf(rtext),
                             qtext.words@.len() == 0 ==> (forall|k: int| 0 <= k < rmatches@.len() ==> rmatches@[k] is None),
                             qtext.words@.len() == 0 ==> __out5@.len() == 0,
+                            (exists|k: int| 0 <= k < __i5 && #[trigger] rmatches@[k] is Some) ==> __out5@.len() >= 1,
                             __out5@.len() <= __i5,
                             forall|j: int| 0 <= j < __out5@.len() ==> match_for_text(#[trigger] __out5@[j], rtext) && match_ok2(__out5@[j]) && __out5@[j].offset < __i5,
                             forall|a: int, b: int| 0 <= a < b < __out5@.len() ==> (#[trigger] __out5@[a]).offset < (#[trigger] __out5@[b]).offset,
@@ -179,6 +242,9 @@ fn text_match__c1(rtext: &TextRef, qtext: &TextRef, rword: &WordView, qword: &Wo
         view_of(rword, rtext, rword.offset as int), view_of(qword, qtext, qword.offset as int),
         slots_ok(old(rmatches)@, rtext), slots_ok(old(qmatches)@, qtext), cand_ok(*old(candidate), rtext, qtext),
     ensures final(tls).DAMLEV.wf(), slots_ok(final(rmatches)@, rtext), slots_ok(final(qmatches)@, qtext), cand_ok(*final(candidate), rtext, qtext),
+        // TM-some: slots only fill up; a success fills a record slot; a failure changes nothing
+        mono_slots(old(rmatches)@, final(rmatches)@), ret is Some ==> some_slot(final(rmatches)@), // [C03 C04 C13]
+        ret is None ==> *final(candidate) == *old(candidate) && final(rmatches)@ == old(rmatches)@ && *final(stop) == *old(stop), // [C03 C04 C13]
 {
     let rnext = rtext.words.get(rword.offset + 1)?.to_view(rtext);
     proof {
@@ -218,6 +284,8 @@ fn text_match__c2(rtext: &TextRef, qtext: &TextRef, rword: &WordView, qword: &Wo
         view_of(rword, rtext, rword.offset as int), view_of(qword, qtext, qword.offset as int),
         slots_ok(old(rmatches)@, rtext), slots_ok(old(qmatches)@, qtext), cand_ok(*old(candidate), rtext, qtext),
     ensures final(tls).DAMLEV.wf(), slots_ok(final(rmatches)@, rtext), slots_ok(final(qmatches)@, qtext), cand_ok(*final(candidate), rtext, qtext),
+        mono_slots(old(rmatches)@, final(rmatches)@), ret is Some ==> some_slot(final(rmatches)@), // [C03 C04 C13]
+        ret is None ==> *final(candidate) == *old(candidate) && final(rmatches)@ == old(rmatches)@ && *final(stop) == *old(stop), // [C03 C04 C13]
 {
     let qnext = qtext.words.get(qword.offset + 1)?.to_view(qtext);
     proof {
@@ -258,6 +326,10 @@ fn text_match__c3(rtext: &TextRef, qtext: &TextRef, rword: &WordView, qword: &Wo
         slots_ok(old(rmatches)@, rtext), slots_ok(old(qmatches)@, qtext), cand_ok(*old(candidate), rtext, qtext),
     ensures final(tls).DAMLEV.wf(), slots_ok(final(rmatches)@, rtext), slots_ok(final(qmatches)@, qtext), cand_ok(*final(candidate), rtext, qtext),
         final(rmatches)@ == old(rmatches)@, final(qmatches)@ == old(qmatches)@,
+        // TM-some: a candidate is never dropped here, and a pair that must match leaves one
+        *old(candidate) is Some ==> *final(candidate) is Some, // [C03 C04 C13]
+        must_match(rword, qword) ==> *final(candidate) is Some, // [C03 C04 C13]
+        *final(stop) && !*old(stop) ==> *final(candidate) is Some, // [C03 C04 C13]
 {
     proof { lemma_view_wfs(rword, rtext, rword.offset as int); lemma_view_wfs(qword, qtext, qword.offset as int); }
     let (rmatch2, qmatch2) = word_match(&rword, &qword, tls)?;
